@@ -82,6 +82,26 @@ theorem C13_lock_hold_bounded (hmin : 0 < p.minLen) (s : St K V) (h : Reach p s)
       have := Proofs.ProtoHold.hold_step p u s.g (s.l u) c g' l' T i hh hts hlen
       simpa using this
 
+/-- the same for `resizeMu`: its holder (the resizer lowering the flag and broadcasting; a waiter between `Lock` and
+`cond.Wait` / `Unlock`) is always enabled and releases it within three of its own steps -/
+theorem C13_mu_hold_bounded (s : St K V) (h : Reach p s) (u : Tid) (hh : holdsMu (s.l u).pc = true) (c : Choice K V) :
+    Proofs.ProtoHold.muMeasure (s.l u) ≤ 3 ∧
+    ∃ s', step p s u c = some s' ∧
+      (holdsMu (s'.l u).pc = false ∨
+       (holdsMu (s'.l u).pc = true ∧ Proofs.ProtoHold.muMeasure (s'.l u) < Proofs.ProtoHold.muMeasure (s.l u))) := by
+  have hi := inv_reach p s h
+  refine ⟨?_, ?_⟩
+  · unfold Proofs.ProtoHold.muMeasure
+    cases (s.l u).pc <;> simp
+  · have hen := Proofs.ProtoHold.mu_holder_enabled p u s.g (s.l u) c (hi.2 u).wf hh
+    cases hts : tstep p u s.g (s.l u) c with
+    | none => rw [hts] at hen; cases hen
+    | some r =>
+      obtain ⟨g', l'⟩ := r
+      refine ⟨{ g := g', l := fun x => if x = u then l' else s.l x }, by simp [step, hts], ?_⟩
+      have := Proofs.ProtoHold.mu_hold_step p u s.g (s.l u) c g' l' hh hts
+      simpa using this
+
 /-- **a writer retries only before it has called the user function** (resize in progress, newer table, need to
 grow): after the call it proceeds to commit, unlock and return -/
 theorem C13_retry_only_before_fn (s : St K V) (h : Reach p s) (u : Tid) (hfn : (s.l u).fnCalls = 1) :
